@@ -264,8 +264,15 @@ pub fn unmap_ntree(d: &NTree, root: &str) -> NTree {
 }
 /// materialise `state` below root, run the (virtual) call through Stdfs, observe; None when the state cannot be built
 pub fn stdfs_step(root: &str, state: &NTree, op: &Op) -> Option<(Res, NTree, NTree)> {
+    stdfs_step_prep(root, state, op, None)
+}
+/// the same with something done to the materialised tree (given its real root) before it is observed and used
+pub fn stdfs_step_prep(root: &str, state: &NTree, op: &Op, prep: Option<&dyn Fn(&str)>) -> Option<(Res, NTree, NTree)> {
     wipe(root);
     materialise_disk(state, root).ok()?;
+    if let Some(f) = prep {
+        f(root);
+    }
     let cwd = if state.cwd == "/" { root.to_string() } else { format!("{}{}", root, state.cwd) };
     std::env::set_current_dir(&cwd).ok()?;
     let pre = unmap_ntree(&disk_ntree(root), root);
